@@ -334,5 +334,7 @@ end Agd.Config
 #print axioms Agd.Tie.TrC20.rateLimit_toInternal_ok
 #print axioms Agd.Tie.TrC20.toInternal_nil
 #print axioms Agd.Tie.TrC20.network_toInternal_ok
+#print axioms Agd.Tie.TrC20.subnetKey_prefix_len
+#print axioms Agd.Tie.TrC20.subnetKey_panics_iff
 #print axioms Agd.Tie.TrC20.missing_reported
 #print axioms Agd.Tie.TrC20.rateLimit_names_ipv4
